@@ -11,12 +11,12 @@ for seed in "$@"; do
   seed=$(realpath $seed); out=$seed/confirmed.txt; : > $out
   echo "== $seed" | tee -a $out
   echo "repo commit: $(git -C /repo rev-parse --short HEAD)" >> $out
-  (cd $seed && bash ./run.sh $W/_build > $W/demo0.log 2>&1); d0=$?
+  (cd $seed && SOFTHSM_SRC=$W bash ./run.sh $W/_build > $W/demo0.log 2>&1); d0=$?
   echo "demo on unchanged tree: exit $d0" | tee -a $out
   if ! git -C $W apply $seed/patch.diff; then echo "PATCH DOES NOT APPLY" | tee -a $out; continue; fi
   python3 /verif/tools/run_baseline.py $W/_build > $W/suite.log 2>&1; s=$?
   echo "suite with change: exit $s: $(head -1 $W/suite.log)" | tee -a $out
-  (cd $seed && bash ./run.sh $W/_build > $W/demo1.log 2>&1); d1=$?
+  (cd $seed && SOFTHSM_SRC=$W bash ./run.sh $W/_build > $W/demo1.log 2>&1); d1=$?
   echo "demo with change: exit $d1: $(grep -i -m2 -E 'broken|violation|fail' $W/demo1.log | tr '\n' ' ' | cut -c1-300)" | tee -a $out
   if [ $d0 -eq 0 ] && [ $s -eq 0 ] && [ $d1 -ne 0 ]; then echo "CONFIRMED" | tee -a $out; else echo "NOT CONFIRMED" | tee -a $out; fi
   git -C $W checkout -- . ; cmake --build $W/_build -j16 > /dev/null 2>&1
